@@ -28,7 +28,7 @@
 (* equal Pos(P, c) # "E".  Stitching: the result covers the same witnesses *)
 (* as P, rings closed, exteriors ccw / holes cw, same exact area.          *)
 (***************************************************************************)
-EXTENDS PointSet, Hull, TLC, Json, IOUtils
+EXTENDS PointSet, Hull, ValidExact, TLC, Json, IOUtils
 
 Rec == ndJsonDeserialize(IOEnv.TRACE)
 
@@ -127,15 +127,24 @@ JudgeMono(e) ==
                                [] OTHER -> FALSE THEN "pieces_region"
     ELSE "ok"
 
-Judge(e) == CASE e.ev = "tri"    -> JudgeTri(e)
-              [] e.ev = "stitch" -> JudgeStitch(e)
-              [] e.ev = "mono"   -> JudgeMono(e)
+\* Domain of events whose polygon was drawn at random by the harness (field rand): a single polygon that is valid by
+\* ValidExact; ear-cut additionally needs rings that do not touch.  Anything else is skipped (counted, never judged).
+InDomain(e) ==
+    \/ ~e.rand
+    \/ /\ Len(e.p.ps) = 1
+       /\ ValidPolygonX(e.p.ps[1].ext, e.p.ps[1].holes)
+       /\ (e.ev = "tri" /\ e.kind = "earcut") => TouchCountX(e.p.ps[1].ext, e.p.ps[1].holes) = 0
+Judge(e) == IF ~InDomain(e) THEN "skip"
+            ELSE CASE e.ev = "tri"    -> JudgeTri(e)
+                   [] e.ev = "stitch" -> JudgeStitch(e)
+                   [] e.ev = "mono"   -> JudgeMono(e)
 
 VARIABLES l, verdict
 vars == <<l, verdict>>
 Init == l \in 1 .. Len(Rec) /\ verdict = "todo"
 Next == /\ verdict = "todo" /\ l' = l
         /\ verdict' = Judge(Rec[l])
-        /\ (verdict' # "ok" => PrintT(<<"REJECT", l, verdict'>>))
+        /\ (verdict' = "skip" => PrintT(<<"SKIP", l>>))
+        /\ (verdict' \notin {"ok", "skip"} => PrintT(<<"REJECT", l, verdict'>>))
 Spec == Init /\ [][Next]_vars
 =============================================================================
